@@ -6,5 +6,6 @@ CONSTANTS
   Depth = 90
   Es = 16
   OpNames = {"insert", "remove", "get", "e_or_insert", "rc_or_insert", "e_remove", "e_replace_none", "e_replace_some", "re_from_key_or_insert", "try_insert", "rc_remove", "rc_vacant_drop", "e_insert", "re_insert_hashed_nocheck", "reserve", "shrink_to", "shrink_to_fit", "clear", "retain", "drain"}
+  Kind = "map"
 INVARIANTS Inv Emit
 CHECK_DEADLOCK FALSE
